@@ -70,6 +70,9 @@ pub fn check(t: &Trace<'_>, out: &mut CaseOut) -> bool {
             "poll" | "recv" | "drive" | "pollreply" => {
                 // a mandatory packet did not fit: the connection must be closed
                 out.count("mandatory_packet_did_not_fit", 1);
+                if op.conn.and_then(|c| t.conns[c].mps).is_some_and(|m| m <= 8) {
+                    out.count("acks_owed_under_tiny_limit", 1);
+                }
                 nontrivial = true;
                 if op.live_after {
                     // retained replay that does not fit is refused on every poll without closing: recorded, see DESIGN (stall)
